@@ -4,6 +4,15 @@ from llsym import Ptr, NULL, SymStr, AssertFail, M
 
 U32 = (1 << 32)
 
+def strid(st):
+    out = []
+    for p in st.parts:
+        if isinstance(p, str): out.append(p)
+        else:
+            t = p[1]
+            out.append((p[0], t if isinstance(t, (int, str)) else ('z3', t.get_id()), p[2]))
+    return tuple(out)
+
 def skey(p):
     return (p.region, tuple(p.path[:-1])), (p.path[-1] if p.path else 0)
 
@@ -153,7 +162,7 @@ def mk_stubs():
         s = get_str(ex, p).norm()
         e = env(ex)
         # existence is symbolic per distinct (syntactic) name; same abstract name -> same answer unless changed by events
-        k = repr(s)
+        k = strid(s)
         if k not in e.exists:
             e.exists[k] = z3.Bool('exists!%d' % len(e.exists))
         ev(ex, 'access', s, e.exists[k])
@@ -171,11 +180,11 @@ def mk_stubs():
     S['@mkdir'] = mkdir
     def rename(ex, a, b):
         sa, sb = get_str(ex, a).norm(), get_str(ex, b).norm(); ev(ex, 'rename', sa, sb)
-        e = env(ex); e.exists[repr(sa)] = False; e.exists[repr(sb)] = True
+        e = env(ex); e.exists[strid(sa)] = False; e.exists[strid(sb)] = True
         return status(ex, 'rename')
     S['@rename'] = rename
     def remove(ex, a):
-        sa = get_str(ex, a).norm(); ev(ex, 'remove', sa); env(ex).exists[repr(sa)] = False; return 0
+        sa = get_str(ex, a).norm(); ev(ex, 'remove', sa); env(ex).exists[strid(sa)] = False; return 0
     S['@remove'] = remove
     def errno_loc(ex):
         return Ptr(ex.new_region('errno'))
@@ -186,7 +195,7 @@ def mk_stubs():
         st = status(ex, 'H5Fcreate')
         fid = env(ex).new('file', name=s)
         ev(ex, 'H5Fcreate', s, flags, fid)
-        env(ex).exists[repr(s)] = True
+        env(ex).exists[strid(s)] = True
         if isinstance(st, int): return fid
         return z3.If(st == 0, z3.IntVal(fid), z3.IntVal(M(64) - 1))
     S['@H5Fcreate'] = H5Fcreate
